@@ -1,6 +1,6 @@
 (* C14 - streaming KZG: space- and time-efficient provers are interchangeable.  Statements only. *)
 From Coq Require Import List Arith NArith Bool.
-From PC Require Import Base.Field Base.Result Base.Poly Schemes.StreamKZG Proofs.StreamFacts Proofs.StreamMulti Proofs.StreamVerifyMulti.
+From PC Require Import Base.Field Base.Result Base.Poly Schemes.StreamKZG Proofs.StreamFacts Proofs.StreamMulti Proofs.StreamVerifyMulti Proofs.StreamIter.
 Import ListNotations.
 Open Scope F_scope.
 
@@ -91,3 +91,20 @@ Theorem C14_verify_multi_complete :
     verify_multi vk (map (time_commit ck) ps) pts (map (fun p => map (eval p) pts) ps) pi eta = true.
 Proof. exact @verify_multi_complete. Qed.
 Print Assumptions C14_verify_multi_complete.
+
+(* the folding iterator: on a stream made of complete blocks (length a multiple of 2^depth, any number of blocks, any
+   depth) the stack machine of FoldedPolynomialTreeIter emits, block by block in post-order, exactly the values of the
+   successive foldings; read level by level they are the naive foldings of the stream.  (Streams needing zero padding
+   are covered by the correspondence over every length 1..130 and depth 0..7, not by this theorem.) *)
+Theorem C14_tree_iter_machine :
+  forall (FO : FieldOps) chs bs,
+    Forall (fun b => length b = (2 ^ length chs)%nat) bs -> tree_iter chs (concat bs) = blocks_emit chs bs.
+Proof. exact @tree_iter_full_blocks. Qed.
+Print Assumptions C14_tree_iter_machine.
+
+Theorem C14_tree_iter_is_naive_folding_partial :
+  forall (FO : FieldOps) chs bs i,
+    Forall (fun b => length b = (2 ^ length chs)%nat) bs -> (1 <= i)%nat -> (i <= length chs)%nat ->
+    by_level i (tree_iter chs (concat bs)) = nth (i - 1) (fold_tree chs (concat bs)) [].
+Proof. exact @tree_iter_is_naive_folding. Qed.
+Print Assumptions C14_tree_iter_is_naive_folding_partial.
